@@ -242,13 +242,24 @@ def kindTag (i : IndCase) : String :=
 def stepIndicator (d : Drv) (line : String) : Drv × Option String :=
   let (op, res, _) := split3 line
   match d.cs, op with
+  | .indNew name cfg, "J" :: js =>
+    -- the configuration as JSON: the kinds of the moving averages and the sources, unambiguously
+    let j := unwords js
+    let has (k : String) : Bool := (j.splitOn ("\"" ++ k ++ "\"")).length > 1
+    let kinds := ["sma", "wma", "hma", "rma", "ema", "dma", "dema", "tma", "tema", "wsma", "smm", "swma", "trima", "lin_reg", "vidya"].filter has
+    let srcs := ["close", "open", "high", "low", "hl2", "tp", "volume", "volumed_price"].filter fun n =>
+      (j.splitOn (":\"" ++ n ++ "\"")).length > 1
+    ({ d with cs := .indNew name (cfg ++ kinds.map ("K:" ++ ·) ++ srcs.map ("S:" ++ ·)) }, none)
   | .indNew name cfg, "N" :: inToks =>
     match candleOfToks inToks with
     | none => ({ d with cs := .skip }, some s!"NOTE case={d.caseId} non-finite first candle skipped")
     | some k =>
       let rust := res.headD "?"
-      let kinds := maKinds cfg
-      let srcs := cfgSources cfg
+      let tagged (p : String) : List String := (cfg.filter (·.startsWith p)).map fun t => (t.drop 2).toString
+      let hasJ := cfg.any fun t => t.startsWith "K:" || t.startsWith "S:"
+      let kinds := if hasJ then (tagged "K:").map (fun k => if k == "lin_reg" then "linreg" else k) else maKinds cfg
+      let srcs := if hasJ then (tagged "S:").filterMap (fun n => Source.all.find? (fun s => s.toStr == n)) else cfgSources cfg
+      let cfg := cfg.filter fun t => !(t.startsWith "K:" || t.startsWith "S:")
       let ctx0 : Ctx := { P := d.P }
       match iNew d.P name cfg k with
       | none =>
@@ -270,7 +281,14 @@ def stepIndicator (d : Drv) (line : String) : Drv × Option String :=
     | none => ({ d with cs := .skip }, some s!"NOTE case={d.caseId} non-finite candle skipped")
     | some k =>
       let d := { d with ops := d.ops + 1 }
-      if res == ["P"] then imismatch d "ind-panic" (kindTag i) "next panicked on a valid candle" line .skip
+      if res == ["P"] then
+        -- a panic where the model says the formula has just become undefined (relative change of a zero quantity: the
+        -- deliberate NaN assertion of SMM/Highest/Lowest) belongs to C10's finding, not to the value comparison
+        let undef := match i.st with
+          | some ist => (match iStep d.P i.ctx ist k [] with | .ok so => so.borderline | .error _ => false)
+          | none => false
+        if undef then ({ d with cs := .skip, exempt := d.exempt + 1 }, none)
+        else imismatch d "ind-panic" (kindTag i) "next panicked on a valid candle" line .skip
       else
       match splitRes res with
       | none => imismatch d "ind-shape" (kindTag i) "unparsable result" line .skip
@@ -301,7 +319,7 @@ def stepIndicator (d : Drv) (line : String) : Drv × Option String :=
             | some m => imismatch d "ind-range" (kindTag i ++ ":" ++ (m.splitOn " ").headD "") m line (.ind i)
             | none => ({ d with cs := .ind i }, none)
         | some ist =>
-          match iStep d.P ctx.eps ist k rv with
+          match iStep d.P ctx ist k rv st flat with
           | .error e => imismatch d "ind-panic" (kindTag i) s!"model panics ({e}), rust returned values" line .skip
           | .ok so =>
             let i := { i with st := some so.st }
@@ -356,7 +374,7 @@ def stepIndicator (d : Drv) (line : String) : Drv × Option String :=
               let cls := if (m.splitOn "non-finite").length > 1 then "ind-finite" else "ind-value"
               -- Vidya's running sums amplify rounding residue (known finding of C03/C15): cases configured with it are
               -- reported under their own signature
-              let sub := if i.kinds.contains "vidya" then "vidya:" ++ i.name else tag m
+              let sub := if i.kinds.contains "vidya" then "vidya" else tag m
               imismatch d cls sub m line (.ind { i with cmpVals := false })
             | none, none, some m => imismatch d "ind-signal" (tag m) m line (.ind { i with cmpSigs := false })
             | none, none, none => ({ d with cs := .ind i }, none)
